@@ -50,7 +50,7 @@ META = {
     "design_ref": "DESIGN.md §6 C08",
 }
 
-FAMILIES = ("collections-", "concurrent/", "values/")
+FAMILIES = ("collections-", "concurrent/", "values/", "history/")
 
 HDR = "From Dawn Require Import Fingerprint.Model Fingerprint.Run.\nOpen Scope N_scope.\n"
 
@@ -99,7 +99,7 @@ def run(ctx):
         return
     out = os.path.join(ctx.tmp, "c08.tsv")
     files = {n: os.path.join(HARNESS, "overlay/root", n) for n in
-             ("zz_verif_c08_test.go", "zz_verif_c08_sweep_test.go", "zz_verif_c08_values_test.go", "zz_verif_c08_conc_test.go")}
+             ("zz_verif_c08_test.go", "zz_verif_c08_sweep_test.go", "zz_verif_c08_values_test.go", "zz_verif_c08_conc_test.go", "zz_verif_c08_hist_test.go")}
     env = {"VERIF_OUT": out, "VERIF_SEED": str(ctx.seed), "VERIF_NRAND": "12" if ctx.quick() else "150",
            "VERIF_C08_THOROUGH": "0" if ctx.quick() else "1"}
     # the schedule families once more under the race detector, in parallel with the main run (a second build of the package)
@@ -122,6 +122,7 @@ def run(ctx):
     cases, graphs, oracles = [], [], []
     texts = {}
     values_info = {"routes": {}}
+    hist_info = {}
     for line in open(out):
         f = line.rstrip("\n").split("\t")
         if f[0] == "ORACLE":
@@ -136,6 +137,8 @@ def run(ctx):
             values_info["routes"][f[1]] = {"targets": int(f[2]), "distinct_values": int(f[3]), "distinct_fingerprints": int(f[4])}
         elif f[0] == "valuesdone":
             values_info["pool"], values_info["edit_loads"] = int(f[1]), int(f[2])
+        elif f[0] == "histstats":
+            hist_info = {"targets": int(f[1]), "fault_sources": int(f[2]), "fingerprints_compared_with_the_fresh_process": int(f[3]), "differing": int(f[4])}
         elif f[0] == "text":
             texts[f[1]] = base64.b64decode(f[2]).decode("utf-8", "replace")
     ctx.coverage["evaluations"] = len(cases) + len(graphs)
@@ -161,12 +164,14 @@ def run(ctx):
                                                       "collection_sizes": len({c[0].split("/")[0] for c in cases if c[0].startswith("collections-")}),
                                                       "collection_cases": len([c for c in cases if c[0].startswith("collections-")]),
                                                       "schedule_cases": len([c for c in cases if c[0].startswith("concurrent/")]),
-                                                      "value_cases": len([c for c in cases if c[0].startswith("values/")]), "values": values_info}
+                                                      "value_cases": len([c for c in cases if c[0].startswith("values/")]), "values": values_info,
+                                                      "history_cases": len([c for c in cases if c[0].startswith("history/")]), "history": hist_info}
     ctx.add_samples([c[:4] for c in cases[:3]] + [g[:3] for g in graphs[1:3]])
     # oracle failures of the two families are many lines of one defect: one violation per (family, oracle), inputs listed
     grouped, single = {}, []
     for o_ in oracles:
-        fam = "collections" if o_[1].startswith("collections-") else "concurrent" if o_[1].startswith("concurrent/") else "values" if o_[1].startswith("values/") else None
+        fam = ("collections" if o_[1].startswith("collections-") else "concurrent" if o_[1].startswith("concurrent/") else "values" if o_[1].startswith("values/")
+               else "history" if o_[1].startswith("history/") else None)
         if fam:
             grouped.setdefault((fam, o_[0]), []).append(o_)
         else:
@@ -186,6 +191,11 @@ def run(ctx):
                "harness/overlay/root/zz_verif_c08_values_test.go: pool c08ValuePool(seed, thorough); values/<route>/<a> -> <b>: the targets function=mk(<a>) and function=mk(<b>) of c08ValuePoolText (route = how the "
                "value is wrapped); values/edits/<target>/<a> -> <b>: the projects c08ValueEditText(<a>) and c08ValueEditText(<b>), target as named"
                if fam == "values" else
+               "harness/overlay/root/zz_verif_c08_hist_test.go: project c08HistText(seed, true) (BUILD.dawn below) loaded with c08HistBuiltins() after a build of c08HistText(seed, false); "
+               "history/<what the process did before>, then //:<target>: the fingerprint of <target> (stamp, functionEnv, upToDate) computed after that history differs from the one computed alone, first "
+               "thing in a fresh process (child histref); 'failed fingerprint of //:f with attribute x of FUSE_i unreadable' = functionEnv(//:f) while the predeclared value FUSE_i returns an error for that attribute; "
+               "history/kinds/<expression>: a target that references that value loads but cannot be fingerprinted"
+               if fam == "history" else
                "harness/overlay/root/zz_verif_c08_conc_test.go: project c08ConcText(k, seed), schedule as named")
         ctx.violation("implementation violates C08 (%s, %d inputs of the %s family): %s: %s" % (orc, len(lst), fam, lst[0][1], lst[0][2] if len(lst[0]) > 2 else ""),
                       {"oracle": orc, "family": fam, "failing_inputs": [x[1] for x in lst[:12]], "detail": [x[2:] for x in lst[:4]],
